@@ -166,15 +166,16 @@ fn check(ctx: &Ctx, c: &Case) -> PResult {
     }
     let honest = gadget::honest_logic_choice(&a, &b, pairs);
     let honest_segs = gadget::logic_segs(pairs, c.xor, &honest);
+    let honest_ranges = gadget::logic_ranges(pairs, &honest);
     let (ws, we) = g.op_wits(2);
-    let Some(mask) = gadget::fit(&honest_segs, &g.wit[ws..we]) else {
+    let Some(fits) = gadget::fit_ranges(&honest_segs, &honest_ranges, &g.wit[ws..we]) else {
         ctx.label("role model mismatch: adversarial tier skipped");
         return Ok(());
     };
-    if !gadget::dropped_segments(&honest_segs, &mask).is_empty() {
-        ctx.label("role model fitted with dropped segments");
+    if fits.iter().any(|f| *f != gadget::SegFit::Keep) {
+        ctx.label("role model fitted with dropped / re-widthed segments");
     }
-    let honest_vec = gadget::flatten(&honest_segs, &mask);
+    let honest_vec = gadget::flatten_fit(&honest_segs, &honest_ranges, &fits);
     let w = 2 * pairs;
     let mk = |a_int: U256, b_int: U256, fa: BtsForge, fb: BtsForge, prods: Option<Vec<F>>, outs: Option<Vec<F>>| LogicChoice {
         a_quads: gadget::quads_of(a_int, w),
@@ -251,11 +252,14 @@ fn check(ctx: &Ctx, c: &Case) -> PResult {
     let (start, _) = g.op_wits(2);
     let ret_idx = start + 4 * (pairs - 1) + 3;
     for (name, ch) in cands {
-        let vec = gadget::flatten(&gadget::logic_segs(pairs, c.xor, &ch), &mask);
+        let vec = gadget::flatten_fit(&gadget::logic_segs(pairs, c.xor, &ch), &gadget::logic_ranges(pairs, &ch), &fits);
         if vec.len() != honest_vec.len() {
             continue;
         }
         let asg = g.splice(&g.wit, 2, 0, &vec);
+        if gadget::maybe_cross(&g, &asg, c.seed, name.len(), 60, "logic adversarial assignment")? {
+            ctx.label("adversarial assignment cross-checked with the real prover");
+        }
         ctx.add_evals(1);
         ctx.label(&format!("adversary: {}", name.split(' ').take(4).collect::<Vec<_>>().join(" ")));
         if g.eval(&asg).is_empty() && asg[ret_idx] != want {
